@@ -42,6 +42,20 @@ def gen_cases(tier, seed):
                                           scenario=rnd.choice(["no_resilient_foods", "no_resilient_foods", "all_resilient_foods", "industrial_foods", "seaweed"]),
                                           NMONTHS=rnd.choice([120, 120, 72, 48]), **clim)
                 cases.append(workload.pipeline_case(iso, o, "%s/%s/%s/%s" % (s, r, c, "nw" if ci == 0 else "base")))
+    # food exporters reach the threshold without feed even in nuclear winter: the branch "no-feed round >= threshold" with culled meat
+    # not eaten is where the round-3 offset for extra meat must not apply (defect repaired in 399cdce)
+    exporters = [i for i in ("ARG", "USA", "BRA", "AUS", "CAN", "PRY", "URY", "KAZ", "UKR", "RUS", "FRA", "THA") if i in isos]
+    for j, iso in enumerate(workload.rotate(exporters, seed)[: (8 if tier == "quick" else 12)]):
+        for cull in (("dont_eat_culled",) if tier == "quick" else ("dont_eat_culled", "do_eat_culled")):
+            o = workload.base_country(shutoff=["continued", "long_delayed_shutoff", "continued_after_10_percent_fed"][j % 3], cull=cull,
+                                      ratio_stocks_untouched=["baseline", "zero"][j % 2], NMONTHS=[48, 120, 72][j % 3],
+                                      meat_strategy=workload.FAMILIES_COMMON["meat_strategy"][(j + seed) % 3])
+            cases.append(workload.pipeline_case(iso, o, "exporter/%s/%s" % (o["shutoff"], cull)))
+    for iso in ("ARG", "BRA", "URY"):
+        for ms in workload.FAMILIES_COMMON["meat_strategy"]:
+            for N in ((48,) if tier == "quick" else (48, 120)):
+                o = workload.base_country(shutoff="continued", cull="dont_eat_culled", ratio_stocks_untouched="baseline", NMONTHS=N, meat_strategy=ms)
+                cases.append(workload.pipeline_case(iso, o, "exporter_continued/%s/%d" % (ms, N)))
     for T in THRESHOLDS:
         for j in range(4 if tier == "quick" else 24):
             o = workload.base_country(shutoff=rnd.choice(["continued", "long_delayed_shutoff", "continued_after_10_percent_fed", "short_delayed_shutoff"]),
